@@ -108,7 +108,9 @@ IntGate(s, r) ==
           /\ (r.res = "ok" /\ p.icount = s.icount) => (p.pc = s.pc \/ s.flags.real)
           \* ... and a TRAP keeps the priority level of its caller: a service routine called from a
           \* handler must not open the gate for requests of the handler's own level
-          /\ (r.res = "ok" /\ p.icount = s.icount + 1 /\ s.pc < IO_START /\ Slice(Rd(s, s.pc).v, 12, 16) = 15)
+          \* (unless the supervisor stack lies in the I/O page and the pushes themselves hit the PSR port)
+          /\ (r.res = "ok" /\ p.icount = s.icount + 1 /\ s.pc < IO_START /\ Slice(Rd(s, s.pc).v, 12, 16) = 15
+                /\ \A q \in SeqSet(p.obs) : ~(q[1] >= IO_START /\ (q[2] \div 2) % 2 = 1))
                 => Prio(p.psr) = Prio(s.psr)
 
 \* C14 inside the specification: from this very state, the strict and the
